@@ -2,6 +2,7 @@ import RegexVerif.Sexp
 import RegexVerif.Model.Scan
 import RegexVerif.Model.Finders
 import RegexVerif.Model.BoyerMoore
+import RegexVerif.Model.IndexOf
 
 namespace RegexVerif.Driver
 open RegexVerif Sexp RegexVerif.Scan
@@ -247,13 +248,52 @@ def handleBm (fs : List Sexp) : String :=
   | _, _, _, _, _, _, _, _, _ => "(bad-op)"
 
 
+/-! ### the rune-slice searches of helpers/indexof.go (Model/IndexOf.lean) -/
+
+open RegexVerif.IndexOf in
+/-- `(indexof (in r…) (find r…) (abc a b c) (sl start length) (lower (r l)…))` ↦ `(ok (<Function> v)…)`: every
+    mirrored helper on the same arguments (`a b c` the single runes / range bounds, `IndexFunc` with the test
+    "odd or equal to a"); `v` = the integer returned, `0`/`1` for a boolean, `panic` for a run-time panic -/
+def handleIndexOf (fs : List Sexp) : String :=
+  let nats (k : String) : Option (List Nat) := (lookup k fs).bind (·.mapM nat?)
+  match nats "in", nats "find", nats "abc", nats "sl", lowerTable? fs with
+  | some inp, some find, some [a, b, c], some [start, len], some lower =>
+    let oi : Option Int → Sexp := fun r => match r with | some v => ofInt v | none => .atom "panic"
+    let ob : Option Bool → Sexp := fun r => match r with | some v => ofBool v | none => .atom "panic"
+    toString (Sexp.list [.atom "ok",
+      mk "IndexOfAny" [oi (indexOfAny inp find)],
+      mk "IndexOfAny1" [oi (indexOfAny1 inp a)],
+      mk "IndexOfAny2" [oi (indexOfAny2 inp a b)],
+      mk "IndexOfAny3" [oi (indexOfAny3 inp a b c)],
+      mk "IndexOfAnyInRange" [oi (indexOfAnyInRange inp a b)],
+      mk "IndexOfAnyExcept" [oi (indexOfAnyExcept inp find)],
+      mk "IndexOfAnyExcept1" [oi (indexOfAnyExcept1 inp a)],
+      mk "IndexOfAnyExcept2" [oi (indexOfAnyExcept2 inp a b)],
+      mk "IndexOfAnyExcept3" [oi (indexOfAnyExcept3 inp a b c)],
+      mk "IndexOfAnyExceptInRange" [oi (indexOfAnyExceptInRange inp a b)],
+      mk "IndexFunc" [oi (indexFunc inp fun ch => ch % 2 == 1 || ch == a)],
+      mk "LastIndexOf" [oi (lastIndexOf inp find)],
+      mk "LastIndexOfAnyExcept1" [oi (lastIndexOfAnyExcept1 inp a)],
+      mk "LastIndexOfAny1" [oi (lastIndexOfAny1 inp a)],
+      mk "LastIndexOfAnyInRange" [oi (lastIndexOfAnyInRange inp a b)],
+      mk "IndexOfIgnoreCase" [oi (indexOfIgnoreCase lower inp find)],
+      mk "IndexOfIgnoreCaseAscii" [oi (indexOfIgnoreCaseAscii inp find)],
+      mk "IndexOf" [oi (indexOf inp find)],
+      mk "StartsWith" [ob (startsWith inp find)],
+      mk "StartsWithIgnoreCase" [ob (startsWithIgnoreCase lower inp find)],
+      mk "Equals" [ob (equals inp start len find)],
+      mk "EqualsIgnoreCase" [ob (equalsIgnoreCase lower inp start len find)],
+      mk "indexOfAnyRunes" [oi (indexOfAnyRunes inp find)]])
+  | _, _, _, _, _ => "(bad-op)"
+
 /-- `(c03 (n N) (rtl b) (minlen L) (start s) (prevlen k) (row (att found q after)…))` ↦
     `(ok <scan> <naive> (hyp shape finder after minlen))`;
-    `(c03 (finder …))` ↦ see `handleFinder`; `(c03 (bm …))` ↦ see `handleBm` -/
+    `(c03 (finder …))` ↦ see `handleFinder`; `(c03 (bm …))` ↦ see `handleBm`; `(c03 (indexof …))` ↦ see `handleIndexOf` -/
 def handleC03 (args : List Sexp) : String :=
   match args with
   | [.list (.atom "finder" :: fs)] => handleFinder fs
   | [.list (.atom "bm" :: fs)] => handleBm fs
+  | [.list (.atom "indexof" :: fs)] => handleIndexOf fs
   | _ =>
   let get (key : String) : Option Sexp := (lookup key args).bind (·.head?)
   match (get "n").bind nat?, (get "rtl").bind bool?, (get "minlen").bind nat?, (get "start").bind nat?,
